@@ -207,7 +207,8 @@ func d1ReducedProblemOracle(o *Out, m Meta, c *d1BiasCase, props J, kept, omitte
 	m.GoOut = J{"biased": json.RawMessage(out1), "reduced": json.RawMessage(out2)}
 	o.count("reduced:compared:" + c.q.Method)
 	o.Oracle(m, ok, "ranking of the biased request differs from the reduced request: "+why)
-	if ok && c.q.Method == "aspectEliminationHeuristic" {
+	if ok && (c.q.Method == "aspectEliminationHeuristic" || c.q.Method == "majorityHeuristic") {
+		// (majority: scores are compared with a tolerance, so the order in which the weights are summed must not matter)
 		// pairwise distinct weights determine the examination order: the request with the criteria simply deleted
 		// (kept ones in their DECLARED order) must give the same decision too
 		var declared []string
